@@ -21,6 +21,27 @@ class EventHandler(Protocol):
     __events__: Mapping[str, str]
 
 
+class _HandlerRef(weakref.ref):
+    """Weak reference to a handler, compared by identity of the handler.
+
+    Standard weak references compare and hash like their referents.
+    Handlers defining ``__eq__`` (eg. dataclasses) would be mistaken
+    for one another, or rejected as unhashable.
+    """
+    __slots__ = ('_handler_id',)
+
+    def __init__(self, handler, callback=None):
+        super().__init__(handler, callback)
+        self._handler_id = id(handler)
+
+    def __eq__(self, other):
+        return (isinstance(other, _HandlerRef)
+                and self._handler_id == other._handler_id)
+
+    def __hash__(self):
+        return self._handler_id
+
+
 class EventDispatcher:
     """Stores :class:`EventHandler` instances and dispatches events.
 
@@ -56,7 +77,7 @@ class EventDispatcher:
         assert isinstance(handler, EventHandler)
 
         # Populate _events
-        handler_ref = weakref.ref(handler, self._remove_weak_handler)
+        handler_ref = _HandlerRef(handler, self._remove_weak_handler)
         for event_name, method_name in handler.__events__.items():
             self._events.setdefault(event_name, set()).add(
                 (handler_ref, getattr(handler.__class__, method_name)))
@@ -72,7 +93,7 @@ class EventDispatcher:
         """Return whether or not a handler is into the dispatcher."""
         assert isinstance(handler, EventHandler)
 
-        return weakref.ref(handler) in self._handlers
+        return _HandlerRef(handler) in self._handlers
 
     def _remove_weak_handler(self, handler_ref: weakref.ref[EventHandler]):
         """Remove handler given its weak reference.
@@ -92,7 +113,7 @@ class EventDispatcher:
 
         Said handler will stop receiving all dispatched events.
         """
-        self._remove_weak_handler(weakref.ref(handler))
+        self._remove_weak_handler(_HandlerRef(handler))
 
     def dispatch(self, event_name: str, *args, **kwargs):
         """Broadcast an event to all registered listeners.
